@@ -308,6 +308,32 @@ func checkTransportWrapper(c *Ctx, r *Report) {
 		}
 	}
 	r.Check(okWrite, rule, "Transport.Write", c.Pos(Write.Pos()), "Impl.Write(b), error forwarded", "Transport.Write does not hand the caller's bytes unchanged to the implementation or drops its error")
+	// Open: the implementation is opened once, on the caller's goroutine, and its verdict is the wrapper's verdict
+	if Open := c.LookupFunc("transport", "Transport", "Open"); Open == nil {
+		r.Anchor(rule, "(*transport.Transport).Open")
+	} else {
+		n := 0
+		okOpen := false
+		for _, g := range append([]*ssa.Function{Open}, AnonFuncsDeep(Open)...) {
+			for _, ci := range callInstrs(g) {
+				if ci.Common().IsInvoke() && ci.Common().Method.Name() == "Open" {
+					n++
+					okOpen = g == Open && forwards(Open, ci)
+				}
+			}
+		}
+		r.Check(n == 1 && okOpen, rule, "Transport.Open", c.Pos(Open.Pos()), "Impl.Open(Args) once, error forwarded", "Transport.Open does not simply open the implementation and hand on its verdict: an opening that the implementation would complete (a telnet negotiation bounded per gap, a slow key exchange) is reported as failed while the abandoned attempt keeps reading and answering on a connection nobody owns")
+	}
+	// no wrapper method moves an implementation call to another goroutine
+	for _, m := range exportedMethodsOf(c, "transport", "Transport") {
+		for _, g := range append([]*ssa.Function{m}, AnonFuncsDeep(m)...) {
+			allInstrs(g, func(in ssa.Instruction) {
+				if _, isGo := in.(*ssa.Go); isGo {
+					r.Bad(rule, "Transport."+m.Name()+" is synchronous", c.Pos(in.Pos()), "the transport wrapper starts a goroutine: an implementation call that outlives the wrapper call keeps using the connection after the caller was told the outcome")
+				}
+			})
+		}
+	}
 }
 
 func checkTransportFactory(c *Ctx, r *Report) {
